@@ -451,6 +451,9 @@ class JSON(Term):
             return self._get_list_sql(value, **kwargs)
         if isinstance(value, str):
             return self._get_str_sql(value, **kwargs)
+        if value is None or isinstance(value, (bool, int, float)):
+            # JSON spelling of the scalars: true / false / null
+            return json.dumps(value)
         return str(value)
 
     def _get_dict_sql(self, value: dict, **kwargs: Any) -> str:
@@ -469,10 +472,17 @@ class JSON(Term):
 
     @staticmethod
     def _get_str_sql(value: str, quote_char: str = '"', **kwargs: Any) -> str:
+        if quote_char == '"':
+            # a JSON string: quotes, backslashes and control characters inside the text are escaped
+            return json.dumps(value, ensure_ascii=False)
         return "{quote}{value}{quote}".format(value=value, quote=quote_char)
 
     def get_sql(self, ctx: SqlContext) -> str:
-        sql = format_quotes(self._recursive_get_sql(self.value), ctx.secondary_quote_char)
+        text = self._recursive_get_sql(self.value)
+        if ctx.dialect is Dialects.MYSQL:
+            # MySQL reads a backslash inside a string literal as an escape
+            text = text.replace("\\", "\\\\")
+        sql = format_quotes(text, ctx.secondary_quote_char)
         return format_alias_sql(sql, self.alias, ctx)
 
     def get_json_value(self, key_or_index: str | int) -> "BasicCriterion":
